@@ -26,6 +26,9 @@ RULE = ("S->C: TLC enumerates the message-shape case analysis of MsgHash_Gen (ki
         "SourceBoc is asked twice of every transaction, the bytes returned first being overwritten in between; messages holding a "
         "library cell are also decoded through NewDecoder().WithLibraryResolver; the reused-variable decodes and the transactions of "
         "the proof / rebuilt records go through the package-level tlb.Unmarshal on ONE boc.Cell variable whose content changes. "
+        "MsgHash_Gen also builds, from the cell definitions, messages whose body / init holds exotic subtrees (Merkle proof over a partly "
+        "pruned tree, a cell X next to a proof in which X is pruned, Merkle update, library cell, pruned branch; by reference, inline, "
+        "nested deeper) and a minimal transaction around each, and hands them over as bags written by Boc!Write. "
         "distinct = distinct source cell tables judged.")
 
 NSHARD_GEN = 8
@@ -34,6 +37,8 @@ NSHARD_GEN = 8
 def coarse(cl, addr=True):
     """input class of a message event, coarse enough to be a stable key: kind[:addr_var][:anycast][:body-is-library-cell][:var-reused]"""
     parts = (cl or "?").split(":")
+    if len(parts) >= 3 and parts[1] == "exotic":                    # <kind>:exotic:<which exotic subtree, where>
+        return ":".join(parts[:3])
     out = [parts[0]]
     if addr and ("src=var" in parts or "dest=var" in parts):      # the address dimensions matter where the destination is re-encoded
         out.append("addr_var")
@@ -82,6 +87,8 @@ def reexec_of(e):
         return None        # re-recorded by a run of the check (needs the pair it rode on)
     if k == "Pair":
         return {"k": "pairboc", "class": e.get("why", ""), "exp": e["exp"], "boc": e["a"]["boc"], "bocb": e["b"]["boc"]}
+    if k == "Tx" and e.get("src") == "spec":
+        return {"k": "xtx", "name": e["pos"].split(":", 1)[1], "kind": "", "boc": e["srcboc"]}
     if k == "Tx":
         return {"k": "blockrec", "src": e["src"], "pos": e["pos"], "rec": "%s:%s" % (e["acc"], e["lt"])}
     if k == "MsgAt":
@@ -192,7 +199,10 @@ def gen_vectors(ck):
         res = ck.tlc_or_infra("MsgHash_Gen", os.path.relpath(p, vlib.SPEC), files={"samples.ndjson": sp}, workers=4 if part == "pair" else 2,
                               timeout=1200, name="gen_" + part, heap_gb=4)
         return res.vecs()
-    cases, rest = vlib.parallel(gen, ["case", "pair"], n=2)
+    cases, rest, exotic = vlib.parallel(gen, ["case", "pair", "exotic"], n=3)
+    if sorted(v["k"] for v in exotic) != ["xmsg"] * 9 + ["xtx"] * 9:
+        raise Infra("MsgHash_Gen part exotic produced %d vectors, expected 9 messages and 9 transactions" % len(exotic))
+    ck.extra["gen_exotic_subtree_bags"] = sorted(set(v["name"] for v in exotic))
     msgs = [v for v in rest if v["k"] == "msg"]
     pairs = [v for v in rest if v["k"] == "pair"]
     if len(cases) != 720:
@@ -218,7 +228,7 @@ def gen_vectors(ck):
         # quick tier: TLC enumerates (and MsgHash!CaseRelation classifies) every one-coordinate pair; a seeded half is replayed
         ck.rng.shuffle(pairs)
         pairs = pairs[:1440]
-    vecs = cases + pairs
+    vecs = exotic + cases + pairs
     for i, v in enumerate(msgs + vecs):
         v["vec"] = i
     ck.extra["gen_pairs_replayed"] = dict(collections.Counter(p["exp"] for p in pairs))
@@ -251,6 +261,10 @@ def stats(traces):
                 c[k + (":" + e["src"] if "src" in e else "")] += 1
                 distinct.add(hashlib.md5(json.dumps(e["cells"]).encode()).hexdigest())
                 cells += len(e["cells"])
+                if k == "Tx" and e["pos"].startswith("exotic:"):
+                    c["Tx-exotic"] += 1
+                if k == "Msg" and ":exotic:" in e["class"]:
+                    c["Msg-exotic"] += 1
                 if k == "Tx" and (e["pos"].startswith("proof:") or e["pos"].startswith("rebuilt:")):
                     c["Tx-" + e["pos"]] += 1
                 if k == "Msg" and e["class"].endswith(":var-reused"):
@@ -304,7 +318,7 @@ def run(ck):
     anyc, _ = judge(ck, jg + jd, par=vlib.NCPU)
     log("traces judged at %.1fs" % (time.time() - ck.t0))
     gs, gdistinct, _ = stats(gtraces)
-    ck.sample({"direction": "S->C", "case": vecs[7]["c"], "cells": vecs[7]["cells"][:2], "pair": next(v for v in vecs if v["k"] == "pair" and v["exp"] == "free")})
+    ck.sample({"direction": "S->C", "case": vecs[25]["c"], "cells": vecs[25]["cells"][:2], "pair": next(v for v in vecs if v["k"] == "pair" and v["exp"] == "free")})
     ds, ddistinct, ncells = stats(traces)
     ck.extra["recorded"] = {k: v for k, v in sorted(ds.items())}
     ck.extra["cells_judged"] = ncells
@@ -318,6 +332,8 @@ def run(ck):
                     {k: v for k, v in ds.items() if k.startswith("Tx-")})
     if not any(e["k"] == "Msg" and "hnr" in e for e in [x for tp in traces for x in vlib.read_ndjson(tp)]):
         raise Infra("no message with a library-cell body went through the decoder with a library resolver")
+    if gs["Msg-exotic"] != 9 or gs["Tx-exotic"] != 9:
+        raise Infra("the bags with exotic subtrees were not all decoded: %d messages, %d transactions" % (gs["Msg-exotic"], gs["Tx-exotic"]))
     if ds["Msg:var-reused"] < 50 or gs["Msg:var-reused"] < 100 or ds["Norm"] < 50:
         raise Infra("too few messages decoded into reused variables / assigned after hashing")
     if ds["Pair:equal"] < 20 or ds["Pair:differ"] < 20 or ds["Pair:free"] < 5:
